@@ -26,7 +26,7 @@ func familyCase(r *rng) int {
 	case "planted": // C01
 		return []int{0, 1, 1, 1, 3, 16}[r.intn(6)]
 	case "edited": // C02
-		return []int{2, 2, 4, 5, 5, 3, 10, 11, 9, 15, 15}[r.intn(11)]
+		return []int{2, 2, 4, 5, 5, 3, 10, 11, 9, 15, 15, 17, 17}[r.intn(13)]
 	case "shifted": // C07
 		return []int{1, 5, 5, 2, 10, 8, 12, 13, 13, 16, 16}[r.intn(11)]
 	case "determinism": // C04
@@ -34,7 +34,7 @@ func familyCase(r *rng) int {
 	case "hostile": // C10
 		return []int{6, 7, 7, 4, 12, 12}[r.intn(6)]
 	}
-	return r.intn(17)
+	return r.intn(18)
 }
 
 func genericInputs(r *rng, docs []corpusDoc, n int) []input {
@@ -142,6 +142,30 @@ func genericInputs(r *rng, docs []corpusDoc, n int) []input {
 				x += "\n" + oovBlock(r, 1+r.intn(10), 1)
 			}
 			ins = append(ins, input{"tail-edit:" + d.name, []byte(x)})
+		case 17: // stutter: the first (or last) few words of the document repeated right before (after) a copy of it, each word
+			// on its own short line at that end: the proposed range starts early (ends late) and the word diff trims a
+			// different number of words at the two ends, across line breaks
+			ws := strings.Fields(string(d.text))
+			if len(ws) < 14 {
+				ins = append(ins, input{"self:" + d.name, d.text})
+				break
+			}
+			m := 3 + r.intn(9)
+			body := strings.Join(ws[:len(ws)-6], " ") + "\n" + strings.Join(ws[len(ws)-6:len(ws)-3], " ") + "\n" + strings.Join(ws[len(ws)-3:len(ws)-1], "\n") + "\n" + ws[len(ws)-1]
+			head := strings.Join(ws[:3], "\n") + "\n" + strings.Join(ws[3:], " ")
+			var x string
+			switch r.intn(3) {
+			case 0:
+				x = strings.Join(ws[:m], " ") + "\n" + body
+			case 1:
+				x = head + "\n" + strings.Join(ws[len(ws)-m:], " ")
+			default:
+				x = strings.Join(ws[:m], " ") + " " + string(editWords(r, []byte(body), 1+r.intn(3)))
+			}
+			if r.chance(1, 2) {
+				x = oovBlock(r, 1+r.intn(10), 1) + "\n" + x + "\n" + oovBlock(r, 1+r.intn(10), 1)
+			}
+			ins = append(ins, input{"stutter:" + d.name, []byte(x)})
 		case 14: // the longest exact run belongs to a partial copy below the threshold; the full copy is broken into shorter runs
 			ins = append(ins, input{"long-partial+broken-full:" + d.name, partialPlusBrokenFull(r, d.text)})
 		case 13: // q-gram hit density at / next to the detectRuns boundary, X first, last or in the middle
@@ -198,6 +222,54 @@ func cmdMatch(seed uint64, tier, outdir string, family string) {
 		curThr = thr
 		curBC = buildCorpus(thr, docs)
 		run(curBC, genericInputs(r, docs, nSynIn))
+	}
+	// stray words: short documents at a low threshold (q = 1, wide error margin), one or a few words per line; a word
+	// of the document repeated before the copy or after it makes the proposed range start early or end late, and the
+	// word diff then trims a different number of words at the two ends, across line breaks
+	for i := 0; i < 3; i++ {
+		thr := []float64{0.6, 0.5, 0.66}[i]
+		var docs []corpusDoc
+		for k := 0; k < 3; k++ {
+			var ws []string
+			for j := 0; j < 9+r.intn(8); j++ {
+				ws = append(ws, synthVocab[(j*5+k*11+i*3)%len(synthVocab)]+[]string{"", "a", "b"}[k])
+			}
+			docs = append(docs, corpusDoc{"License", fmt.Sprintf("Short-%d", k), "s.txt", []byte(strings.Join(ws, " "))})
+		}
+		curThr = thr
+		curBC = buildCorpus(thr, docs)
+		var ins []input
+		for _, d := range docs {
+			ws := strings.Fields(string(d.text))
+			a := 3 + r.intn(3)
+			drop := append(append([]string{}, ws[:a]...), ws[a+2:]...) // two words dropped in the middle
+			trailing := append(append([]string{}, drop...), ws[a+1])    // ... one of them again after the end
+			leading := append([]string{ws[1]}, drop...)                  // a document word before the start
+			both := append(append([]string{ws[2], ws[1]}, drop...), ws[a])
+			for vi, v := range [][]string{trailing, leading, both} {
+				sep := "\n"
+				if r.chance(1, 3) {
+					sep = " \n"
+				}
+				ins = append(ins, input{fmt.Sprintf("stray-word-%d:%s", vi, d.name), []byte(strings.Join(v, sep) + "\n")})
+			}
+		}
+		run(curBC, ins)
+	}
+	// the same shape with repeated function words (minimized from seeded change C02-m6): the stray word matches the
+	// document on a neighbouring diagonal, is fused into the range and then trimmed by the diff on one side only
+	{
+		docs := []corpusDoc{{"License", "K1", "license.txt", []byte("permission is hereby granted free of charge to any")},
+			{"License", "K2", "license.txt", []byte("redistribution is hereby allowed free of cost to any person")}}
+		curThr = 0.6
+		curBC = buildCorpus(0.6, docs)
+		var ins []input
+		for _, u := range []string{"permission is hereby granted to any charge", "is permission is free of charge to any zulu",
+			"is redistribution is free of cost to any zulu person", "redistribution is hereby allowed to any person cost"} {
+			ins = append(ins, input{"stray-function-word", []byte(strings.Join(strings.Fields(u), "\n") + "\n")})
+			ins = append(ins, input{"stray-function-word-ctx", []byte("zzqx\n" + strings.Join(strings.Fields(u), "\n") + "\nzzqx zzqx\n")})
+		}
+		run(curBC, ins)
 	}
 	// near ties: two long documents of almost equal length, each matched with a few changed words, so that the two
 	// confidences 1 - d1/k1 and 1 - d2/k2 differ by less than a millionth without being equal; both orders
